@@ -466,3 +466,54 @@ pub fn gen_history(r: &mut SplitMix64, n: usize, h: &HProfile) -> (u64, Vec<(u64
     }
     (t0, calls)
 }
+
+/// Role machines for the simulator properties: two states, state 1 carries
+/// one action of the given kind with constant timings (microseconds) drawn
+/// from small sets so that timers of different machines collide and overlap.
+#[derive(Clone, Copy, Debug, PartialEq)]
+pub enum Role {
+    Blocker,
+    Padder,
+    Timer,
+    Canceller,
+}
+
+pub fn gen_role_machine(r: &mut SplitMix64, role: Role, bypass: Option<bool>) -> Machine {
+    let evs = [
+        Event::NormalSent,
+        Event::TunnelSent,
+        Event::TunnelRecv,
+        Event::NormalRecv,
+        Event::PaddingSent,
+        Event::PaddingRecv,
+        Event::BlockingBegin,
+        Event::BlockingEnd,
+        Event::TimerBegin,
+        Event::TimerEnd,
+    ];
+    let tmo = const_dist(*r.pick(&[0.0, 0.0, 1.0, 2.0, 5.0, 10.0, 50.0, 100.0, 1000.0]));
+    let dur = const_dist(*r.pick(&[0.0, 1.0, 3.0, 10.0, 100.0, 1000.0, 100000.0]));
+    let by = bypass.unwrap_or_else(|| r.chance(1, 2));
+    let rp = r.chance(1, 2);
+    let limit = if r.chance(1, 3) { Some(const_dist(*r.pick(&[1.0, 2.0, 5.0]))) } else { None };
+    let action = match role {
+        Role::Blocker => Action::BlockOutgoing { bypass: by, replace: rp, timeout: tmo, duration: dur, limit },
+        Role::Padder => Action::SendPadding { bypass: by, replace: rp, timeout: tmo, limit },
+        Role::Timer => Action::UpdateTimer { replace: rp, duration: dur, limit },
+        Role::Canceller => Action::Cancel { timer: *r.pick(&[Timer::Action, Timer::Internal, Timer::All]) },
+    };
+    let mut t0: EnumMap<Event, Vec<Trans>> = enum_map! { _ => vec![] };
+    let mut t1: EnumMap<Event, Vec<Trans>> = enum_map! { _ => vec![] };
+    let k0 = r.range(1, 3);
+    for _ in 0..k0 {
+        t0[*r.pick(&evs)] = vec![Trans(1, 1.0)];
+    }
+    let k1 = r.range(0, 3);
+    for _ in 0..k1 {
+        t1[*r.pick(&evs)] = vec![Trans(r.below(2) as usize, 1.0)];
+    }
+    let s0 = State::new(t0);
+    let mut s1 = State::new(t1);
+    s1.action = Some(action);
+    Machine::new(u64::MAX, 0.0, u64::MAX, 0.0, vec![s0, s1]).unwrap()
+}
